@@ -22,7 +22,7 @@ import tempfile
 
 import numpy as np
 
-from .. import cards, yrun
+from .. import cards, rel, yrun
 from ..engine import VERIF, digest
 
 ID = "C18"
@@ -248,7 +248,8 @@ def _caller(st):
         r = yrun.runner(cell, {name: [cards.kin(0.01, st["Q2"])]})
         esf = r.observables[name].elements[0]
         elems = cf.Combiner(esf).collect_elems()
-    except Exception:
+    except Exception as e:
+        rel.note_failure(e, {k: v for k, v in cell.items() if k != "theory"}, [name])  # anything but an accepted exclusion becomes a violation (engine)
         return {"violations": [], "nontrivial": False, "outcome": "excluded", "transitions": 1, "info": {"n_excluded_by_exception": 1}}
     viol = []
     n = 0
